@@ -238,6 +238,9 @@ func fname(f *ssa.Function) string {
 	return s
 }
 
+// standalonePkg: a package type-checked on its own (legacy files) whose functions count as module functions.
+var standalonePkg *ssa.Package
+
 // inModule reports whether f is a source function of the analysed module.
 func inModule(f *ssa.Function) bool {
 	if f == nil {
@@ -245,6 +248,9 @@ func inModule(f *ssa.Function) bool {
 	}
 	for f.Parent() != nil {
 		f = f.Parent()
+	}
+	if f.Pkg != nil && standalonePkg != nil && f.Pkg == standalonePkg {
+		return true
 	}
 	if f.Pkg == nil {
 		// method of an instantiated/synthetic wrapper: decide by object package
